@@ -102,10 +102,13 @@ type Interp struct {
 	out     strings.Builder
 	obs     RefObs
 	steps   int
+	effects int // count of non-output side effects (assignments, pushes, triggers)
 	Budget  int
 	depth   int
 	MaxCall int // call depth limit (0: none)
 	// HostSingletons holds host-provided singleton values.
+	// ArgsRTL evaluates call arguments right to left (models a documented deviation of the VM).
+	ArgsRTL        bool
 	HostSingletons map[string]Val
 	singles        map[string]*cell
 	// Modules: other modules by name for imports (function lookup by module)
@@ -115,6 +118,12 @@ type Interp struct {
 // Eval runs the program's main function.
 func Eval(prog *Program, pr *Printed, budget int) RefObs {
 	in := &Interp{prog: prog, pr: pr, Budget: budget}
+	return in.Run("main", nil)
+}
+
+// EvalRTL is Eval with call arguments evaluated right to left.
+func EvalRTL(prog *Program, pr *Printed, budget int) RefObs {
+	in := &Interp{prog: prog, pr: pr, Budget: budget, ArgsRTL: true}
 	return in.Run("main", nil)
 }
 
@@ -493,9 +502,31 @@ func coerceTo(v Val, t *Type) Val { return v }
 
 func (in *Interp) evalArgs(as []Expr, e *env) ([]Val, *ctl) {
 	out := make([]Val, len(as))
+	if in.ArgsRTL {
+		for i := len(as) - 1; i >= 0; i-- {
+			v, c := in.eval(as[i], e)
+			if c != nil {
+				return nil, c
+			}
+			out[i] = v
+		}
+		return out, nil
+	}
+	effectful := 0
 	for i, a := range as {
+		before := in.effects + in.out.Len()
 		v, c := in.eval(a, e)
+		if in.effects+in.out.Len() != before || c != nil {
+			effectful++
+			if effectful >= 2 || (c != nil && i > 0 && len(as) > 1) {
+				// at least two arguments with observable effects: their relative order is visible
+				in.feat("multi-arg-effects")
+			}
+		}
 		if c != nil {
+			if i+1 < len(as) {
+				in.feat("multi-arg-effects") // an argument exits before later ones are evaluated
+			}
 			return nil, c
 		}
 		out[i] = v
@@ -794,6 +825,7 @@ func (in *Interp) callExpr(n *Call, e *env) (Val, *ctl) {
 		if c != nil {
 			return nil, c
 		}
+		in.effects++
 		return method(recv, m.Name, args)
 	}
 	fv, c := in.eval(n.Fn, e)
@@ -1161,6 +1193,7 @@ func ipow(a, b int64) int64 {
 }
 
 func (in *Interp) assign(n *Assign, e *env) (Val, *ctl) {
+	in.effects++
 	// evaluation order of the pieces of an assignment target vs. its right-hand side is
 	// left open unless only one of them has side effects; generators keep targets pure.
 	compute := func(old Val) (Val, *ctl) {
